@@ -592,6 +592,181 @@ func TestP4Large(t *testing.T) {
 	})
 }
 
+// ---------------------------------------------------------------------------
+// a rejected block leaves nothing behind
+
+// rejCase is a CMap file that installs error handlers which let the program
+// go on, so that the state after a rejected block can be seen: good block(s),
+// one block with a fault in entry FaultAt (not necessarily the first), more
+// good blocks, endcmap.
+type rejCase struct {
+	Kind    int    `json:"kind"`     // block kind of the faulty block (cmapref kinds 1-6)
+	N       int    `json:"n"`        // entries in the faulty block
+	FaultAt int    `json:"fault_at"` // index of the faulty entry
+	Fault   int    `json:"fault"`    // 0 wrong destination type, 1 unequal bounds, 2 reversed range
+	Before  int    `json:"before"`   // good entries of the same kind in an earlier block
+	After   int    `json:"after"`    // good entries of the same kind in a later block
+	Text    []byte `json:"text"`
+}
+
+func (c *rejCase) build() {
+	isRange := c.Kind == cmapref.CidRange || c.Kind == cmapref.BfRange || c.Kind == cmapref.NotdefRange
+	isBf := c.Kind == cmapref.BfChar || c.Kind == cmapref.BfRange
+	var b bytes.Buffer
+	b.WriteString("%!PS-Adobe-3.0 Resource-CMap\n/CIDInit /ProcSet findresource begin\n12 dict begin\nbegincmap\n")
+	b.WriteString("/CIDSystemInfo 3 dict dup begin /Registry (R) def /Ordering (O) def /Supplement 0 def end def\n/CMapName /Rej def\n/CMapType 1 def\n")
+	b.WriteString("errordict begin\n")
+	for _, e := range []string{"typecheck", "rangecheck", "syntaxerror", "limitcheck", "undefinedresult", "invalidaccess", "stackunderflow", "undefined", "unregistered", "invalidfont"} {
+		fmt.Fprintf(&b, "/%s {cleartomark mark} def\n", e)
+	}
+	b.WriteString("end\nmark\n1 begincodespacerange <0000> <ffff> endcodespacerange\n")
+	entry := func(code int, dst int, fault int) {
+		lo, hi := fmt.Sprintf("<%04x>", code), fmt.Sprintf("<%04x>", code+1)
+		d := fmt.Sprint(dst)
+		if isBf {
+			d = fmt.Sprintf("<%04x>", dst)
+		}
+		switch fault {
+		case 0:
+			if isBf {
+				d = "7"
+			} else {
+				d = "<0102>"
+			}
+		case 1:
+			hi = fmt.Sprintf("<%04x00>", code+1)
+		case 2:
+			lo, hi = hi, lo
+		}
+		if isRange {
+			fmt.Fprintf(&b, "%s %s %s\n", lo, hi, d)
+		} else {
+			fmt.Fprintf(&b, "%s %s\n", lo, d)
+		}
+	}
+	name := cmapref.KindNames[c.Kind]
+	if c.Before > 0 {
+		fmt.Fprintf(&b, "%d begin%s\n", c.Before, name)
+		for i := 0; i < c.Before; i++ {
+			entry(0x1000+4*i, 100+i, -1)
+		}
+		fmt.Fprintf(&b, "end%s\n", name)
+	}
+	fmt.Fprintf(&b, "%d begin%s\n", c.N, name)
+	for i := 0; i < c.N; i++ {
+		f := -1
+		if i == c.FaultAt {
+			f = c.Fault
+		}
+		entry(0x2000+4*i, 60000+i, f) // destinations 60000.. mark the rejected block
+	}
+	fmt.Fprintf(&b, "end%s\n", name)
+	if c.After > 0 {
+		fmt.Fprintf(&b, "%d begin%s\n", c.After, name)
+		for i := 0; i < c.After; i++ {
+			entry(0x3000+4*i, 300+i, -1)
+		}
+		fmt.Fprintf(&b, "end%s\n", name)
+	}
+	b.WriteString("cleartomark\nendcmap\nCMapName currentdict /CMap defineresource pop\nend\nend\n")
+	c.Text = b.Bytes()
+}
+
+// checkRejected: if the file is read at all, no table may hold an entry of
+// the rejected block, every entry must come from one of the good blocks, and
+// the good block before the rejected one must be there completely.
+func checkRejected(c *rejCase) (msg string, continued bool) {
+	d, err := postscript.ReadCMap(bytes.NewReader(c.Text))
+	if err != nil || d == nil {
+		return "", false // the reader gives up at the rejected block: nothing was stored
+	}
+	info, ok := d["CodeMap"].(*postscript.CMapInfo)
+	if !ok || info == nil {
+		return "CodeMap is not a *CMapInfo", true
+	}
+	before := 0
+	see := func(src []byte, dst postscript.Object) string {
+		code := 0
+		for _, x := range src {
+			code = code<<8 | int(x)
+		}
+		switch {
+		case code >= 0x2000 && code < 0x3000:
+			return fmt.Sprintf("the table holds the entry %x > %s of the block that was rejected (fault in entry %d of %d)", src, objString(dst), c.FaultAt, c.N)
+		case code >= 0x1000 && code < 0x2000:
+			before++
+		}
+		return ""
+	}
+	for _, l := range [][]postscript.CharMap{info.CidChars, info.BfChars, info.NotdefChars} {
+		for _, e := range l {
+			if m := see(e.Src, e.Dst); m != "" {
+				return m, true
+			}
+		}
+	}
+	for _, l := range [][]postscript.RangeMap{info.CidRanges, info.BfRanges, info.NotdefRanges} {
+		for _, e := range l {
+			if m := see(e.Low, e.Dst); m != "" {
+				return m, true
+			}
+		}
+	}
+	if before != c.Before {
+		return fmt.Sprintf("%d of the %d entries of the good block before the rejected one are in the table", before, c.Before), true
+	}
+	return "", true
+}
+
+func TestP5Rejected(t *testing.T) {
+	rec := ev.New("C07", "rejected")
+	defer rec.Finish(t)
+	rec.Rule("CMap files that put procedures into errordict which let the program go on after an error (`cleartomark mark`), so that what a rejected block leaves behind can be seen: for each of the six mapping-block kinds, a good block of 0-3 entries, then a block of 1-6 entries whose entry k (every position) has a destination of the wrong type, bounds of unequal length or a reversed range, then a good block of 0-2 entries, endcmap, defineresource (enumerated). Oracle: if ReadCMap returns a dictionary, none of its tables holds an entry of the rejected block (its source codes are set apart) and the good block before it is there completely; a reader that gives up at the rejected block is as good (counted). Non-trivial: the fault is not in the first entry of its block; distinct by file.")
+	k := 0
+	for kind := cmapref.CidChar; kind <= cmapref.NotdefRange; kind++ {
+		isRange := kind == cmapref.CidRange || kind == cmapref.BfRange || kind == cmapref.NotdefRange
+		for n := 1; n <= 6; n++ {
+			for at := 0; at < n; at++ {
+				for fault := 0; fault < 3; fault++ {
+					if fault > 0 && !isRange {
+						continue
+					}
+					for _, ba := range [][2]int{{0, 0}, {2, 1}, {3, 2}, {1, 0}} {
+						k++
+						if !ev.Mine(k) {
+							continue
+						}
+						c := &rejCase{Kind: kind, N: n, FaultAt: at, Fault: fault, Before: ba[0], After: ba[1]}
+						c.build()
+						rec.Eval(1)
+						var cont bool
+						msg := ev.Safe(func() string {
+							var m string
+							m, cont = checkRejected(c)
+							return m
+						})
+						if cont {
+							rec.Class("program went on after the rejected block")
+						} else {
+							rec.Class("reader gave up at the rejected block")
+						}
+						if at > 0 {
+							rec.NonTrivialHash(ev.Hash(string(c.Text)))
+						}
+						if k%97 == 5 {
+							rec.Sample(string(c.Text))
+						}
+						if msg != "" {
+							rec.Violation(false, msg, map[string]any{"rejected": c})
+						}
+					}
+				}
+			}
+		}
+	}
+	rec.Exhaustive()
+}
+
 func TestReplay(t *testing.T) {
 	rc, err := ev.LoadReplay()
 	if err != nil {
@@ -603,6 +778,15 @@ func TestReplay(t *testing.T) {
 	var big struct {
 		Blocks int `json:"large_blocks"`
 		Salt   int `json:"salt"`
+	}
+	var rej struct {
+		Rejected *rejCase `json:"rejected"`
+	}
+	if json.Unmarshal(rc.Case, &rej) == nil && rej.Rejected != nil {
+		if msg := ev.Safe(func() string { m, _ := checkRejected(rej.Rejected); return m }); msg != "" {
+			t.Fatalf("%s", msg)
+		}
+		return
 	}
 	var c c07case
 	if json.Unmarshal(rc.Case, &big) == nil && big.Blocks > 0 {
